@@ -180,3 +180,11 @@ Theorem C19_fuel_is_never_decisive :
   (forall k bs i len j, (length bs < k)%nat -> Walk.rd_words k bs i len j = Walk.rd_words (S (length bs)) bs i len j).
 Proof. split; [exact FuelIndep.container_to_serde_any_fuel|split; [exact FuelIndep.parse_json_value_any_fuel|split; [exact (@FuelIndep.arr_fold_any_fuel)|exact FuelIndep.rd_words_any_fuel]]]. Qed.
 Print Assumptions C19_fuel_is_never_decisive.
+
+(* L5 (second review): the number classification of sj_of_value by VALUE, independent of the conversion's code: an integer
+   (in either integer variant) is PosInt of itself when non-negative and NegInt of itself when negative, a float is itself;
+   sj_num_of is the only function with that property *)
+Theorem C19_number_classification_by_value :
+  (forall n, same_number n (sj_num_of n)) /\ (forall n s, same_number n s -> s = sj_num_of n).
+Proof. split; [exact sj_num_of_same_number|exact same_number_unique]. Qed.
+Print Assumptions C19_number_classification_by_value.
